@@ -44,6 +44,13 @@ inductive Err where
   | argparse         -- SystemExit(2) from argparse (type=int, choices)
 deriving DecidableEq, Repr, Inhabited
 
+instance {ε α : Type} [DecidableEq ε] [DecidableEq α] : DecidableEq (Except ε α) := fun a b =>
+  match a, b with
+  | .ok x, .ok y => if h : x = y then isTrue (by rw [h]) else isFalse (fun e => h (by cases e; rfl))
+  | .error x, .error y => if h : x = y then isTrue (by rw [h]) else isFalse (fun e => h (by cases e; rfl))
+  | .ok _, .error _ => isFalse (fun e => by cases e)
+  | .error _, .ok _ => isFalse (fun e => by cases e)
+
 /-- `ArchitectureFeatures.DEFAULT_CONFIG` (regenerated) -/
 def defaultName : String := Gen.Cfg.defaultConfigName
 
@@ -187,25 +194,33 @@ def legalConstArea (a : MemArea) : Bool := a == .dram || a == .onChipFlash || a 
 def legalArenaArea (a : MemArea) : Bool := a == .sram || a == .dram
 def legalCacheArea (a : MemArea) : Bool := a == .sram
 
-/-- everything of `_get_vela_config` after the two sections have been read -/
-def finalize (maxAddr : Nat) (cli : Option Int) (s0 : SysCfg) (m0 : MemCfg) : Except Err Arch :=
-  let sm := sramOverride s0 m0
-  let s := sm.1
-  let m := sm.2
-  let size : Int := match cli with
-    | some v => v
-    | none => m.size
+/-- "override sram usage": a command-line size replaces whatever the memory mode gave -/
+def chosenSize (cli : Option Int) (fileSize : Int) : Int :=
+  match cli with
+  | some v => v
+  | none => fileSize
+
+/-- "check configuration" and "assign existing memory areas" -/
+def checkArch (maxAddr : Nat) (s : SysCfg) (m : MemCfg) (size : Int) : Except Err Arch :=
   let ca := portArea s.axi0 s.axi1 m.constPort
   let aa := portArea s.axi0 s.axi1 m.arenaPort
   let ka := portArea s.axi0 s.axi1 m.cachePort
-  if !legalConstArea ca then .error .cfgConst
-  else if !legalArenaArea aa then .error .cfgArena
-  else if !legalCacheArea ka then .error .cfgCache
-  else if size < 0 then .error .cfgSizeNeg
-  else if size > (maxAddr : Int) then .error .cfgSizeBig
-  else .ok { coreClock := s.coreClock, axi0 := s.axi0, axi1 := s.axi1, tab := s.tab,
-             constPort := m.constPort, arenaPort := m.arenaPort, cachePort := m.cachePort,
-             arenaCacheSize := size, permanent := ca, featureMap := aa, fast := ka }
+  if legalConstArea ca then
+    if legalArenaArea aa then
+      if legalCacheArea ka then
+        if size < 0 then .error .cfgSizeNeg
+        else if size > (maxAddr : Int) then .error .cfgSizeBig
+        else .ok { coreClock := s.coreClock, axi0 := s.axi0, axi1 := s.axi1, tab := s.tab,
+                   constPort := m.constPort, arenaPort := m.arenaPort, cachePort := m.cachePort,
+                   arenaCacheSize := size, permanent := ca, featureMap := aa, fast := ka }
+      else .error .cfgCache
+    else .error .cfgArena
+  else .error .cfgConst
+
+/-- everything of `_get_vela_config` after the two sections have been read -/
+def finalize (maxAddr : Nat) (cli : Option Int) (s0 : SysCfg) (m0 : MemCfg) : Except Err Arch :=
+  let sm := sramOverride s0 m0
+  checkArch maxAddr sm.1 sm.2 (chosenSize cli sm.2.size)
 
 def getVelaConfig (inp : Input) : Except Err Arch := do
   let s ← sysStage inp
